@@ -173,8 +173,11 @@ def internal_state(a, objs):
             continue
         entry = MF._global_fn_version_cache.get(o.qualified_name_without_version)
         rules = tuple(sorted((r.key, r.rule_hash, getattr(r, "last_value", None)) for r in (o._hash_rules or [])))
+        from ..core import object_state
+
         out.append((name, o._calculated_version, entry.version if entry else None,
-                    (entry.as_of_generation == gen) if entry else None, hashlib.sha1(repr(rules).encode()).hexdigest()))
+                    (entry.as_of_generation == gen) if entry else None, hashlib.sha1(repr(rules).encode()).hexdigest(),
+                    hashlib.sha1(repr(object_state(o, depth=0)).encode()).hexdigest()))
     return tuple(out)
 
 
